@@ -44,8 +44,8 @@ def st_pause(cid, name, fa, drain=3 * SEC, async_=True):
     return {"op": "pause", "id": cid, "async": async_, "name": H(name), "fail_after": fa, "drain_timeout": drain}
 
 
-def st_stop(cid, name, drain=3 * SEC, async_=True):
-    return {"op": "stop", "id": cid, "async": async_, "name": H(name), "msg": H(b"stopped"), "drain_timeout": drain}
+def st_stop(cid, name, drain=3 * SEC, async_=True, msg=b"stopped"):
+    return {"op": "stop", "id": cid, "async": async_, "name": H(name), "msg": H(msg), "drain_timeout": drain}
 
 
 def st_resume(cid, name, async_=True):
@@ -125,6 +125,11 @@ def forced():
                                 st_sleep(SEC), st_arm("req:gate-woken"), st_resume("c3", b"web", async_=False), st_sleep(0),
                                 st_stop("c4", b"web", async_=False), st_rel("req:gate-woken"), st_sleep(SEC),
                                 st_resume("c5", b"web", async_=False)]
+    # held requests released by a stop WITHOUT a message (the default): they are answered 503 like with any other message
+    sc["stop-empty-message"] = [st_deploy("c1", b"web", [b"ta:80"]), st_pause("c2", b"web", 20 * SEC, async_=False), st_req("r1"),
+                                st_req("r2"), st_sleep(SEC),
+                                {"op": "stop", "id": "c3", "async": False, "name": H(b"web"), "msg": H(b""), "drain_timeout": SEC},
+                                st_req("r3"), st_sleep(SEC), st_resume("c4", b"web", async_=False), st_req("r4")]
     return [(k, {"steps": v + st_end()}) for k, v in sc.items()]
 
 
@@ -206,7 +211,7 @@ class Gen7:
                 self.steps.append(st_resume(self.cid(), nm, async_=async_))
                 self.state[nm] = ("running", 0)
             elif x < 0.59:
-                self.steps.append(st_stop(self.cid(), nm, drain=rnd.choice([0, SEC, 3 * SEC]), async_=async_))
+                self.steps.append(st_stop(self.cid(), nm, drain=rnd.choice([0, SEC, 3 * SEC]), async_=async_, msg=rnd.choice([b"stopped", b"stopped", b""])))
                 self.state[nm] = ("stopped", 0)
             elif x < 0.68:
                 self.deploy(nm, async_)
